@@ -380,6 +380,58 @@ def main(repo, lean):
     db = find_fn(b8, r"static\s+code_point\s+decode\s*\(\s*Iterator\s*&\s*p\s*,\s*Iterator\s+e\s*\)\s*\{", "utf_traits::decode")
     emit_decoder(w, "Boost", "booster/booster/locale/utf.h", helpers, db, NEXT_TEMPLATE_BOOSTER, html=False)
 
+
+    # ---------------- booster utf_traits<CharType,1>::encode, utf_traits<CharType,4>, conv::utf_to_utf
+    eb = find_fn(b8, r"static\s+Iterator\s+encode\s*\(\s*code_point\s+value\s*,\s*Iterator\s+out\s*\)\s*\{", "utf_traits<char>::encode")
+    put = lambda k: "*out++=static_cast<char_type>(«%s»);" % k
+    h = template_match("utf_traits<char>::encode", eb,
+                       "if(«c1»){" + put("e11") + "}elseif(«c2»){" + put("e21") + put("e22") + "}elseif(«c3»){" + put("e31") + put("e32") + put("e33") +
+                       "}else{" + put("e41") + put("e42") + put("e43") + put("e44") + "}returnout;")
+    w("namespace Boost")
+    w("/-- `utf_traits<char>::encode`: branch conditions and the value each `*out++ = static_cast<char_type>(…)` stores (before the cast to `char`) -/")
+    for k in ("c1", "c2", "c3"):
+        w(f"def enc{k.upper()} (value : Nat) : Bool := {c_to_lean(h[k])}")
+    for k in ("e11", "e21", "e22", "e31", "e32", "e33", "e41", "e42", "e43", "e44"):
+        w(f"def enc{k.upper()} (value : Nat) : Nat := {c_to_lean(h[k])}")
+    w("end Boost\n")
+    m4 = re.search(r"struct\s+utf_traits\s*<\s*CharType\s*,\s*4\s*>\s*\{", bst)
+    if not m4:
+        raise Untranslatable("booster utf_traits<CharType,4> specialisation")
+    b32 = bst[m4.start():]
+    d32 = find_fn(b32, r"static\s+code_point\s+decode\s*\(\s*It\s*&\s*current\s*,\s*It\s+last\s*\)\s*\{", "utf_traits<wchar_t>::decode")
+    h = template_match("utf_traits<CharType,4>::decode", d32,
+                       "if(current==last)returnbooster::locale::utf::incomplete;code_pointc=*current++;if(«bad»)returnbooster::locale::utf::illegal;returnc;")
+    w("/-- UTF-32 `decode`: reject condition -/")
+    w(f"def utf32Bad (c : Nat) : Bool := {c_to_lean(h['bad'], funcs={'is_valid_codepoint': 'Boost.validCp'})}")
+    e32 = find_fn(b32, r"static\s+It\s+encode\s*\(\s*code_point\s+u\s*,\s*It\s+out\s*\)\s*\{", "utf_traits<wchar_t>::encode")
+    if squash(e32) != "*out++=static_cast<char_type>(u);returnout;":
+        raise Untranslatable("utf_traits<CharType,4>::encode: shape")
+    mi = re.search(r"static\s+const\s+code_point\s+illegal\s*=\s*(0x[0-9A-Fa-f]+)u\s*;", bst)
+    mc = re.search(r"static\s+const\s+code_point\s+incomplete\s*=\s*(0x[0-9A-Fa-f]+)u\s*;", bst)
+    w(f"def boostIllegal : Nat := {int(mi.group(1), 16)}")
+    w(f"def boostIncomplete : Nat := {int(mc.group(1), 16)}")
+    eu = rd("booster/booster/locale/encoding_utf.h")
+    ee = rd("booster/booster/locale/encoding_errors.h")
+    me = re.search(r"typedef\s+enum\s*\{\s*skip\s*=\s*(\d+)\s*,\s*stop\s*=\s*(\d+)\s*,\s*default_method\s*=\s*(\w+)\s*\}\s*method_type\s*;", ee)
+    if not me:
+        raise Untranslatable("conv::method_type enum")
+    meth = {"skip": me.group(1), "stop": me.group(2)}
+    ub = find_fn(eu, r"utf_to_utf\s*\(\s*CharIn\s+const\s*\*\s*begin\s*,\s*CharIn\s+const\s*\*\s*end\s*,\s*method_type\s+how\s*=\s*default_method\s*\)\s*\{", "conv::utf_to_utf(begin,end,how)")
+    h = template_match("conv::utf_to_utf", ub,
+                       "std::basic_string<CharOut>result;result.reserve(end-begin);typedefstd::back_insert_iterator<std::basic_string<CharOut>>inserter_type;"
+                       "inserter_typeinserter(result);utf::code_pointc;while(begin!=end){c=utf::utf_traits<CharIn>::templatedecode<CharInconst*>(begin,end);"
+                       "if(«err»){if(«throws»)throwconversion_error();}else{utf::utf_traits<CharOut>::templateencode<inserter_type>(c,inserter);}}returnresult;")
+    ren = {"utf::illegal": "boostIllegal", "utf::incomplete": "boostIncomplete", "stop": meth["stop"], "skip": meth["skip"]}
+    w("/-- `conv::utf_to_utf`: when the decoder's return value is treated as an error, and when that throws -/")
+    w(f"def u2uIsError (c : Nat) : Bool := {c_to_lean(h['err'], rename=ren)}")
+    w(f"def u2uThrows (how : Nat) : Bool := {c_to_lean(h['throws'], rename=ren)}")
+    w(f"def methodSkip : Nat := {meth['skip']}")
+    w(f"def methodStop : Nat := {meth['stop']}")
+    for sig, what in ((r"utf_to_utf\s*\(\s*std::basic_string<CharIn>\s+const\s*&\s*str\s*,\s*method_type\s+how\s*=\s*default_method\s*\)\s*\{", "utf_to_utf(std::basic_string)"),):
+        sb_ = find_fn(eu, sig, what)
+        if squash(sb_) != "returnutf_to_utf<CharOut,CharIn>(str.c_str(),str.c_str()+str.size(),how);":
+            raise Untranslatable(what + ": shape")
+    w("")
     # ---------------- single-byte validators
     fns = re.findall(r"template\s*<\s*typename\s+Iterator\s*>\s*bool\s+(\w+)\s*\(\s*Iterator\s+p\s*,\s*Iterator\s+e\s*,\s*size_t\s*&\s*count\s*\)\s*\{", val)
     if "utf8_valid" not in fns or len(fns) < 2:
